@@ -378,6 +378,14 @@ Definition tonl_func_diag (pos : Z) (fn : string) : list (diag * option (string 
   [({| d_pos := pos; d_code := "TONL02";
        d_msg := "[TONL02] function " ++ fn ++ " is marked @testonly and can only be called in test files" |}, None)].
 
+(* the receiver type that decides a method call x.m(): the receiver of the SELECTED METHOD (TypesInfo.Selections: also a method
+   promoted through an embedded field), else - no method object, e.g. a call of a func-typed field - the type of x *)
+Definition method_recv_type (f : node) : option ty :=
+  match a_obj (n_attrs f) with
+  | Some o => match o_kind o with OFunc => if o_is_method o then o_recv o else a_ty (n_attrs f) | _ => a_ty (n_attrs f) end
+  | None => a_ty (n_attrs f)
+  end.
+
 Definition tonl_cands (n : node) : list (diag * option (string * string)) :=
   match n_kind n with
   | KCallExpr =>
@@ -408,7 +416,7 @@ Definition tonl_cands (n : node) : list (diag * option (string * string)) :=
               match via_pkg with
               | Some p => if tonl_func fs p mn then tonl_func_diag (n_pos n) mn else []
               | None =>
-                  match type_info (a_ty (n_attrs f)) with
+                  match type_info (method_recv_type f) with
                   | Some (p, tn) =>
                       if tonl_method fs p mn tn
                       then [({| d_pos := n_pos n; d_code := "TONL03";
